@@ -336,7 +336,10 @@ def rule_columns(repo, tier='quick', rule_id='C05.R12', only=None):
         rr.instance('numeric, scale 1 / reference -5: 8 columns')
         # values off the grid: what counts is the scaled integer.  Entries that scale to the same integer agree (width 0), and encoding
         # what the decoder made of the first encoding gives the same fields again (canonical fixpoint of C03)
-        for column in ([0.31, 0.29], [0.3, 0.34, 0.26], [0.04, -0.04], [0.31, 0.29, None], [0.31, 0.52], [0.5, 0.5]):
+        offgrid = ([0.31, 0.29], [0.3, 0.34, 0.26], [0.04, -0.04], [0.31, 0.29, None], [0.31, 0.52], [0.5, 0.5],
+                   # minimum and distance to the minimum both round down: each value must still be rounded on its own
+                   [0.04, 0.09], [0.24, 0.29, 0.31], [-0.26, 0.14], [0.09, 0.04, None], [0.44, 0.86], [-0.44, -0.06, 0.36])
+        for column in offgrid:
             n += 1
             fields, err, refused = encode_column(repo, 'numeric', list(column), 4, True, scale_powered=10, refval=-5)
             if fields is None:
@@ -352,12 +355,19 @@ def rule_columns(repo, tier='quick', rule_id='C05.R12', only=None):
             if got is None:
                 rr.fail('column:numeric:scaled', fi_e.where, 'the column %r written compressed as %s: the decoder %s' % (column, fields, derr))
                 continue
+            # quantisation: every value reads back as the multiple of the element's precision nearest to it (half a unit of the last
+            # scaled digit at most), whatever the other subsets hold
+            nearest = [None if v is None else int(round(v * 10)) / 10.0 for v in column]
+            if not same(got, nearest):
+                rr.fail('column:numeric:compressed:quantisation', fi_e.where, 'the column %r (scale 1) written compressed as %s reads back as %r; every value must read back '
+                        'within half a unit of the last scaled digit, i.e. as %r' % (column, fields, got, nearest), witness={'column': [repr(v) for v in column]})
+                continue
             fields2, err2, _ = encode_column(repo, 'numeric', list(got), 4, True, scale_powered=10, refval=-5)
             if fields2 != fields:
                 rr.fail('column:numeric:compressed:fixpoint', fi_e.where, 'the column %r is written as %s; decoding gives %r, and encoding that again gives %s: the first '
                         'encoding is not the canonical one, so a second decode / encode round trip changes the bytes' % (column, fields, got, fields2 if fields2 is not None else err2),
                         witness={'column': [repr(v) for v in column]})
-        rr.instance('numeric, off-grid values: 6 columns (width 0 on raw agreement, encode / decode / encode fixpoint)')
+        rr.instance('numeric, off-grid values: %d columns (width 0 on raw agreement, quantisation to the nearest grid value, encode / decode / encode fixpoint)' % len(offgrid))
     # the decoder reads every legal difference width, not only the minimal one
     if not only or 'numeric' in only or 'codeflag' in only:
         for kind in ('numeric', 'codeflag'):
